@@ -44,9 +44,13 @@ impl<'a> Parser<'a> {
         Ok(())
     }
     fn generate_ast(&mut self, oper_prec: OperatorCategory) -> Result<Node, ParseError> {
+        #[cfg(feature = "verif_hooks")]
+        crate::verif_hooks::tick();
         let mut left_expr = self.parse_number()?;
 
         while oper_prec < self.current_token.get_oper_prec() {
+            #[cfg(feature = "verif_hooks")]
+            crate::verif_hooks::tick();
             if self.current_token == Token::Eof {
                 break;
             }
@@ -60,6 +64,8 @@ impl<'a> Parser<'a> {
         self.check_paren(Token::LeftParen)?;
         let mut args = Vec::new();
         for i in 0..n {
+            #[cfg(feature = "verif_hooks")]
+            crate::verif_hooks::tick();
             let arg_expr = self.generate_ast(OperatorCategory::DefaultZero)?;
             args.push(arg_expr);
             if i < n - 1 {
@@ -86,6 +92,8 @@ impl<'a> Parser<'a> {
         self.check_paren(start_token)?;
         let mut args = Vec::new();
         loop {
+            #[cfg(feature = "verif_hooks")]
+            crate::verif_hooks::tick();
             if args.is_empty() && (end_token == self.current_token) {
                 self.get_next_token()?;
                 break;
